@@ -40,6 +40,7 @@ def run(ctx):
     ctx.run_rule("H1", r_hazmat.rule_H1, cfgs)
     import r_state
     ctx.run_rule("LZ", r_state.rule_LZ, cfgs)
+    ctx.run_rule("ZP", r_state.rule_ZP, cfgs)
     import r_globals as _rg
     ctx.run_rule("W1", _rg.rule_W1, cfgs)
     # the child CVs are read back as one contiguous prefix of cv_array: the split point must be degree*OUT_LEN
